@@ -281,7 +281,15 @@ def run_clause(clause, n_examples, seed, known, rec, max_sigs=6, shrink=True,
     distinct unknown signature found (collect-then-shrink)."""
     found = []
     reported = set()
-    for attempt in range(max_sigs):
+    attempt = -1
+    retry_unshrunk = False
+    while attempt + 1 < max_sigs or retry_unshrunk:
+        if retry_unshrunk:
+            retry_unshrunk = False
+            shrink_now = False       # same seed again, without the shrink phase, to surface the original exception
+        else:
+            attempt += 1
+            shrink_now = shrink
         state = {'target': None, 'case': None, 'detail': None, 'frozen': False}
 
         def body(case):
@@ -312,7 +320,7 @@ def run_clause(clause, n_examples, seed, known, rec, max_sigs=6, shrink=True,
                     state['detail'] = hit[0].detail
                     raise _Violation(state['target'])
 
-        phases = [Phase.explicit, Phase.generate] + ([Phase.shrink] if shrink else [])
+        phases = [Phase.explicit, Phase.generate] + ([Phase.shrink] if shrink_now else [])
         test = given(clause.strategy)(body)
         for ex in clause.examples:
             test = hypothesis.example(ex)(test)
@@ -352,6 +360,10 @@ def run_clause(clause, n_examples, seed, known, rec, max_sigs=6, shrink=True,
                 found.append((state['target'], state['case'],
                               '%s (not minimised: Hypothesis shrinker error %s)' % (state['detail'], type(e).__name__)))
                 reported.add(state['target'])
+                continue
+            if os.sep + 'hypothesis' + os.sep in fn and shrink_now:
+                # the shrinker died while minimising an exception that came out of the check itself
+                retry_unshrunk = True
                 continue
             raise
         break
